@@ -252,7 +252,14 @@ def oracle_reference(case, rec):
             raise Violation('C06/reference/%s/fewer-imfs-than-the-reference-pipeline' % v, '')
         dev = np.abs(got[:, j] - r.imf).max() / scale
         if dev > 1e-9:
-            if r.note or r.margin_stop <= 1e-6 or r.margin_tie <= 1e-7 or r.margin_par <= 1e-4:
+            sens = 0.0
+            if xo.get('parabolic_extrema'):
+                # measured rounding sensitivity: the same extraction under two algebraically equal vertex formulas
+                def run():
+                    rr = refmodel.ref_extract(res, envelope_opts=eo, extrema_opts=xo, hard_cap=1200, **imf_opts)
+                    return rr.imf
+                sens = refmodel.rounding_sensitive(run) / scale
+            if r.note or r.margin_stop <= 1e-6 or r.margin_tie <= 1e-7 or r.margin_par <= 1e-4 or sens > dev / 1e3:
                 raise Discard('mismatch on an ill-conditioned extraction (stop metric at threshold, near-tie, or near-flat '
                               'extremum under parabolic refinement)')
             custom = 'custom-mag-pad' if 'mag_pad_opts' in xo else 'default-pad'
